@@ -388,6 +388,9 @@ impl Context {
   }
 }
 
+#[cfg(rzmq_verif)] impl Context { /// verification hook: current value of the actor WaitGroup (read-only)
+  pub fn verif_live_actor_count(&self) -> usize { self.inner.actor_wait_group.get_count() } }
+
 impl fmt::Debug for Context {
   fn fmt(&self, f: &mut fmt::Formatter<'_>) -> fmt::Result {
     // Provide a more informative Debug representation if useful,
